@@ -86,3 +86,13 @@ def g2o(seed, tier, quick=(1500, 800), thorough=(10000, 5000)):
     keys = ("export_cases", "import_cases", "char_cases", "export_outcomes", "import_outcomes", "loaders", "line_kinds", "element_kinds", "cycles", "defects", "spellings",
             "max_lines", "warnings_seen", "nan_atoms_outside_assumption", "idempotence", "not_modelled")
     return dict(ok=r["ok"], cases=r["cases"], distinct_nontrivial=r["distinct_nontrivial"], samples=r["samples"], disagreements=r["disagreements"][:4], errors=r["assumption_failures"], **{k: r[k] for k in keys})
+
+
+def heap(seed, tier, quick=(60, 30), thorough=(1200, 30)):
+    """C15: the object-identity model (Model/Heap.lean, driver command `heap`) vs the real objects on aliased worlds and histories"""
+    from harness import heap as HP
+
+    a, b = _pick(tier, quick, thorough)
+    r = HP.run(seed, a, b)
+    keep = {k: v for k, v in r.items() if k not in ("samples", "disagreements", "ok", "cases") and isinstance(v, (int, float, str, dict, list))}
+    return dict(ok=r["ok"], cases=r["cases"], distinct_nontrivial=r.get("traces", r["cases"]), samples=r.get("samples", [])[:3], disagreements=r["disagreements"][:3], **{k: keep[k] for k in list(keep)[:14]})
